@@ -630,10 +630,23 @@ def bag_view(v):
     raise Unsupported("id collection view")
 
 
+def stub_get_sp(interp, b):
+    """callee view of Project._get_statepoint (clauses of GetSP.post): a cache hit is returned as is, a miss goes to the workspace"""
+    ex = interp.ex
+    proj, jid = b["self"], b["job_id"]
+    c = proj.fields["_sp_cache"]
+    if ex.decide(c.dom[jid.e], "get_sp:cache-hit"):
+        return SSP(c.val[jid.e])
+    v = stub_get_sp_from_ws(interp, {"self": proj, "job_id": jid, "validate": b["validate"]})
+    c.sym_setitem(ex, jid, v)
+    return v
+
+
 class ProjCheck(PContract):
     target = f"{PRJ}.Project.check"
     properties = ("C03", "C09", "C11")
-    callees = {f"{PRJ}.Project._find_job_ids": stub_find_job_ids_all, f"{PRJ}.Project._get_statepoint_from_workspace": stub_get_sp_from_ws}
+    callees = {f"{PRJ}.Project._find_job_ids": stub_find_job_ids_all, f"{PRJ}.Project._get_statepoint_from_workspace": stub_get_sp_from_ws,
+               f"{PRJ}.Project._get_statepoint": stub_get_sp, f"{JOB}.calc_id": lambda interp, b: interp.ctx.stub_calc_id(interp, b)}
     faults = False
 
     def loops(self, case):
